@@ -126,6 +126,44 @@ func cAddDelta(d int) opSpec {
 		}}
 }
 
+// ---- ops for a Value that starts EMPTY (constructed without an initial value): the first writes it ever sees
+// race like any others - the optimistic read of "nothing stored" has to be re-checked like any other read.
+var addOldOrNothing = resource.InterceptBefore(func(old, new proto.Message) {
+	if o, ok := old.(*T); ok && o != nil {
+		new.(*T).DefaultInt32 += o.DefaultInt32
+	}
+})
+
+func vAddFresh(d int) opSpec {
+	return opSpec{fmt.Sprintf("Add(%d)", d),
+		func(e env) res { return mk(e.val.Set(msg(d), addOldOrNothing)) },
+		func(s *state) res {
+			if !s.has {
+				s.has, s.v = true, 0
+			}
+			s.v += d
+			return res{codes.OK, s.v}
+		}}
+}
+func vSetOnce(x int) opSpec {
+	return opSpec{fmt.Sprintf("SetIfEmpty(%d)", x),
+		func(e env) res {
+			return mk(e.val.Set(msg(x), resource.WithExpectedCheck(func(old proto.Message) error {
+				if o, ok := old.(*T); ok && o != nil {
+					return status.Error(codes.FailedPrecondition, "already initialised")
+				}
+				return nil
+			})))
+		},
+		func(s *state) res {
+			if s.has {
+				return res{codes.FailedPrecondition, -1}
+			}
+			s.has, s.v = true, x
+			return res{codes.OK, x}
+		}}
+}
+
 func vIncBelow(limit int) opSpec {
 	return opSpec{fmt.Sprintf("IncBelow(%d)", limit),
 		func(e env) res { return mk(e.val.Set(msg(0), below(limit), inc)) },
@@ -348,7 +386,9 @@ func (p program) body() func() {
 		// another by what it stores, not by when)
 		verifrt.VirtualClock()
 		var e env
-		if p.isVal {
+		if p.isVal && !p.init.has {
+			e.val = resource.NewValue() // nothing stored yet
+		} else if p.isVal {
 			e.val = resource.NewValue(resource.WithInitialValue(msg(p.init.v)))
 		} else {
 			e.col = resource.NewCollection()
@@ -378,6 +418,9 @@ func (p program) body() func() {
 		var final state
 		if p.isVal {
 			final = state{true, val(e.val.Get())}
+			if g, _ := e.val.Get().(*T); g == nil {
+				final = state{}
+			}
 		} else {
 			m, ok := e.col.Get("a")
 			final = state{has: ok}
@@ -422,7 +465,10 @@ func progName(isVal bool, init state, threads [][]opSpec) string {
 	sort.Strings(ts)
 	k := "Collection"
 	is := "{}"
-	if isVal {
+	if isVal && !init.has {
+		k = "Value"
+		is = "{nothing stored}"
+	} else if isVal {
 		k = "Value"
 		is = fmt.Sprintf("{%d}", init.v)
 	} else if init.has {
@@ -440,6 +486,13 @@ func main() {
 		h.Sched(p.name, q, t, p.body(), hx.StdOracle)
 	}
 	one := func(o opSpec) []opSpec { return []opSpec{o} }
+
+	// ---- a Value with nothing stored yet
+	add(true, state{}, -1, -1, one(vAddFresh(1)), one(vAddFresh(5)))
+	add(true, state{}, -1, -1, one(vSetOnce(1)), one(vSetOnce(2)))
+	add(true, state{}, -1, -1, one(vSetOnce(1)), one(vAddFresh(5)))
+	add(true, state{}, 2, -1, one(vAddFresh(1)), one(vAddFresh(5)), one(vAddFresh(10)))
+	add(true, state{}, 2, -1, one(vSetOnce(1)), []opSpec{vAddFresh(5), vAddFresh(10)})
 
 	// ---- Value, 2 threads: all pairs
 	vops := []opSpec{vSet(5), vCAS(0, 7), vInc(), vIncBelow(1), vAdd(1)}
